@@ -21,6 +21,8 @@ type Transfer struct {
 	TsigProvider   TsigProvider      // An implementation of the TsigProvider interface. If defined it replaces TsigSecret and is used for all TSIG operations.
 	TsigSecret     map[string]string // Secret(s) for Tsig map[<zonename>]<base64 secret>, zonename must be in canonical form (lowercase, fqdn, see RFC 4034 Section 6.2)
 	tsigTimersOnly bool
+	tsigKeyName    string      // key and algorithm an incoming transfer was requested under:
+	tsigAlgorithm  string      // the envelopes of the answer have to be signed with the same
 	TLS            *tls.Config // TLS config. If Xfr over TLS will be attempted
 }
 
@@ -67,6 +69,11 @@ func (t *Transfer) In(q *Msg, a string) (env chan *Envelope, err error) {
 		if err != nil {
 			return nil, err
 		}
+	}
+
+	t.tsigKeyName, t.tsigAlgorithm = "", ""
+	if ts := q.IsTsig(); ts != nil {
+		t.tsigKeyName, t.tsigAlgorithm = ts.Hdr.Name, ts.Algorithm
 	}
 
 	if err := t.WriteMsg(q); err != nil {
@@ -257,6 +264,16 @@ func (t *Transfer) ReadMsg() (*Msg, error) {
 		err = TsigVerifyWithProvider(p, tp, t.tsigRequestMAC, t.tsigTimersOnly)
 		if ts := m.IsTsig(); ts != nil {
 			t.tsigRequestMAC = ts.MAC
+			// An answer is signed with the key and the algorithm of its request
+			// (RFC 8945, section 5.3). An envelope that verifies under another
+			// key we hold, or another algorithm, is not part of this transfer.
+			if err == nil && t.tsigKeyName != "" {
+				if CanonicalName(ts.Hdr.Name) != CanonicalName(t.tsigKeyName) {
+					err = ErrKey
+				} else if CanonicalName(ts.Algorithm) != CanonicalName(t.tsigAlgorithm) {
+					err = ErrKeyAlg
+				}
+			}
 		}
 	}
 	return m, err
